@@ -111,6 +111,14 @@ func shapes() []*shape {
 		mk("double-delete-a", []string{"t"}, doubleDelete("dd-a")...),
 		mk("double-delete-b", []string{"t"}, doubleDelete("dd-b")...),
 		mk("double-delete-c", []string{"t"}, doubleDelete("dd-c")...),
+		// two different delete claims on one permanode with the SAME claim date, one of them undone
+		mk("same-date-deletes", []string{"t"},
+			world.Item{Kind: "key", Signer: 1},
+			world.Item{Kind: "permanode", Signer: 1, Data: "sdd"},
+			world.Item{Kind: "claim", Claim: "set", PN: 2, Attr: "title", Val: 1, Date: 10, Signer: 1},
+			world.Item{Kind: "delete", Target: 2, Date: 20, Signer: 1},
+			world.Item{Kind: "delete", Target: 2, Date: 20, Signer: 1},
+			world.Item{Kind: "delete", Target: 4, Date: 40, Signer: 1}),
 		mk("delpn-attrs", []string{"a", "b"},
 			world.Item{Kind: "key", Signer: 1},
 			world.Item{Kind: "permanode", Signer: 1, Data: "p"},
